@@ -92,7 +92,13 @@ def check_fold(chk, rule, where, kf, what, *, kind, term=None, sense=None, init_
         return False
     probs = []
     if kf.kind != kind:
-        probs.append("is a %s fold, specification requires %s" % (kf.kind, kind))
+        scalar = ("SUM", "EXT")
+        if kf.kind in scalar and kind in scalar or (kind in ("ARGSET",) and kf.kind in scalar) or (kind in scalar and kf.kind == "ARGSET"):
+            probs.append("is a %s fold, specification requires %s" % (kf.kind, kind))
+        else:
+            # a different but possibly equivalent construction (comprehension, collect...): cannot decide
+            chk.undecided(rule, where, "%s: built as %s; equivalence with %s not established" % (what, found, expected))
+            return False
     else:
         ext = kf.of if kind in ("ARGSET", "ARG") else kf
         if getattr(ext, "band", None) is not None:
